@@ -628,63 +628,8 @@ class R1Shipped(object):
         return res
 
 
-# Module- and class-level containers of the shipped form modules as they were when the modules were imported.  The
-# re-derivation starts from that state: whatever a form module remembers from one call to the next (a look-up cache, a
-# memo) is history, and a value that depends on it is not a function of the return's inputs.
-def _form_module_state():
-    import sys as _sys
-    import types as _types
-    snap = []
-    seen = set()
-
-    def take(v):
-        if isinstance(v, (dict, list, set)) and id(v) not in seen:
-            seen.add(id(v))
-            snap.append((v, type(v)(v)))
-
-    for name in sorted(_sys.modules):
-        if not name.startswith('habutax.forms.ty'):
-            continue
-        mod = _sys.modules[name]
-        if not isinstance(mod, _types.ModuleType):
-            continue
-        for k, v in list(vars(mod).items()):
-            if k.startswith('__'):
-                continue
-            take(v)
-            if isinstance(v, type) and getattr(v, '__module__', None) == name:
-                for k2, v2 in list(vars(v).items()):
-                    if not k2.startswith('__'):
-                        take(v2)
-    return snap
-
-
-_FORM_STATE = _form_module_state()
-
-
-def reset_form_module_state():
-    """-> number of containers that had changed since import"""
-    import sys as _sys
-    n = 0
-    for obj, saved in _FORM_STATE:
-        if obj != saved:
-            n += 1
-            if isinstance(obj, list):
-                obj[:] = saved
-            else:
-                obj.clear()
-                obj.update(saved)
-    for name in sorted(_sys.modules):
-        if name.startswith('habutax.forms.ty'):
-            for v in list(vars(_sys.modules[name]).values()):
-                cc = getattr(v, 'cache_clear', None)
-                if callable(cc) and not isinstance(v, type):
-                    cc()
-    return n
-
-
 def model_for(pdict, run):
-    reset_form_module_state()
+    core.reset_code_state()      # the re-derivation shares nothing the forms may remember from the run
     m = R1Shipped(pdict['year'], run.input_texts, run.requested)
     r = m.run()
     r.model = m
